@@ -1,5 +1,5 @@
 (* C08 — balances lists each address once with the sum of its unspent outputs. Pinned statements only: each theorem is closed by `exact` of a lemma proved in theories/. *)
-From RBP Require Import Bytes Hashes Wire Block BlockP Render Index IndexP Model ModelP StoreP CsvP CbP.
+From RBP Require Import Bytes Hashes Wire Block BlockP Render Index IndexP Model ModelP StoreP CsvP CbP BalanceP.
 From RBP Require Drive Merkle Utxo Stats OutProto Reader Published Misc.
 
 Theorem C08_balance_is_sum :
@@ -18,7 +18,27 @@ Theorem C08_utxo_set_is_C07 :
   forall (delivered : list (N * eblock)) (k : bytes), Utxo.lookup bytes uval beqb k (utxo_final delivered) = Utxo.last_touch bytes uval beqb k (utxo_events delivered) None.
 Proof. exact utxo_final_last_touch. Qed.
 
+Theorem C08_balances_conserve_value :
+  forall m : list (bytes * uval), total (list N) (balances_final m) = unspent_total m.
+Proof. exact balances_conserve_value. Qed.
+
+Theorem C08_any_iteration_order :
+  forall (m m' : list (bytes * uval)) (a : list N), Permutation.Permutation m m' -> Utxo.bal_lookup (list N) beqb a (balances_final m) = Utxo.bal_lookup (list N) beqb a (balances_final m').
+Proof. exact balances_any_iteration_order. Qed.
+
+Theorem C08_addresses_are_owners :
+  forall (m : list (bytes * uval)) (a : list N), In a (map fst (balances_final m)) <-> (exists (k : bytes) (h v : N), In (k, (h, v, a)) m).
+Proof. exact balances_addresses_are_owners. Qed.
+
+Theorem C08_rows_le_unspent_rows :
+  forall m : list (bytes * uval), (length (balances_final m) <= length m)%nat.
+Proof. exact balances_rows_le_unspent_rows. Qed.
+
 Print Assumptions C08_balance_is_sum.
 Print Assumptions C08_one_row_per_address.
 Print Assumptions C08_generic_sum.
 Print Assumptions C08_utxo_set_is_C07.
+Print Assumptions C08_balances_conserve_value.
+Print Assumptions C08_any_iteration_order.
+Print Assumptions C08_addresses_are_owners.
+Print Assumptions C08_rows_le_unspent_rows.
